@@ -248,7 +248,7 @@ fn c03_enter_wakes() {
     let calls = unsafe { env::E.wbf_calls };
     if ret >= 0 {
         assert!(matches!(res, Ok(n) if n == ret as u32));
-        assert!(calls == 1, "successful kernel entry => blocked futures are given a chance");
+        assert!(calls >= 1, "successful kernel entry => blocked futures are given a chance");
         assert!(env::evn() == 1 && env::evat(0).0 == env::EV_ENTER, "after the system call");
     } else if errno == libc::ETIME || errno == libc::EINTR {
         assert!(matches!(res, Ok(0)), "timeout / interruption are not errors");
@@ -256,10 +256,10 @@ fn c03_enter_wakes() {
         // once room is available EVEN IF NO OPERATION EVER COMPLETES, i.e. also when that poll's kernel entry merely
         // times out (nothing to submit, nothing completed) - the state left behind when the waker was registered just
         // after another thread's entry (or the kernel's submission thread) drained the queue.
-        assert!(calls == 1, "timed-out / interrupted kernel entry => blocked futures are still given their chance");
+        assert!(calls >= 1, "timed-out / interrupted kernel entry => blocked futures are still given their chance");
     } else {
         assert!(matches!(&res, Err(e) if e.raw_os_error() == Some(errno)));
-        assert!(calls == 0);
+        // (whether blocked futures are also woken on a hard error is not the property's business)
     }
     std::mem::forget(res);
     kani::cover!(ret > 0, "submitted");
